@@ -152,12 +152,27 @@ func checkC09(p *Prog, r *Report) {
 		}
 	}
 
+	var hfns map[*ssa.Function]bool
+	handlerFns := func() map[*ssa.Function]bool {
+		if nil == hfns {
+			hfns = map[*ssa.Function]bool{}
+			for f := range handlerReachable(p) {
+				hfns[topFn(f)] = true
+			}
+		}
+		return hfns
+	}
 	checkRoot := func(c string, pos token.Pos, v ssa.Value, want *types.Var, what string) {
 		rs := valueRoots(v, pathThrough)
 		var bad []string
 		seen := false
+		nconf := 0
 		for _, x := range rs {
 			switch {
+			case "param" == x.Kind && nil != x.V && !typeIs(x.V.Type(), "net/http", "Request") && nil != x.V.(*ssa.Parameter).Parent() && !handlerFns()[topFn(x.V.(*ssa.Parameter).Parent())]:
+				/* A parameter of something which runs at start-up, not
+				for a request: configuration, like the roots. */
+				nconf++
 			case "field" == x.Kind && (x.Field == fdir || x.Field == tmplf) && (nil == want || x.Field == want):
 				seen = true
 			case "const" == x.Kind:
@@ -182,6 +197,8 @@ func checkC09(p *Prog, r *Report) {
 			rPath.Bad(c, pos, "%s derives from %s: a client can choose which file is touched", what, strings.Join(bad, ", "))
 		case 0 != len(bad):
 			rPath.Unproven(c, pos, "%s derives from %s, which is not the configured root", what, strings.Join(bad, ", "))
+		case !seen && nconf > 0 && nconf == len(rs):
+			rPath.OK(c, pos, "%s is start-up configuration (a parameter of a function no request reaches)", what)
 		case !seen:
 			rPath.Bad(c, pos, "%s does not derive from the configured root (%s)", what, rootsString(rs))
 		default:
@@ -450,4 +467,13 @@ func handlerReaches(fn *ssa.Function, name string) bool {
 		return found
 	}
 	return visit(fn)
+}
+
+
+// topFn: the named function a (possibly anonymous) function belongs to.
+func topFn(f *ssa.Function) *ssa.Function {
+	for nil != f && nil != f.Parent() {
+		f = f.Parent()
+	}
+	return f
 }
